@@ -74,6 +74,16 @@ def gen_history(rng, tier, collide_use=False):
                     tw.twin_diffs.append({'op': len(tw.ops) - 1, 'kind': 'get', 'index': i,
                                           'what': 'content differs from last stored: ' + d, 'class': 'content'})
             continue
+        if not foreign and rng.random() < 0.03:
+            # both twins read a file written by ANOTHER sequence on the same rasters (labels, triggers, gradients);
+            # the history then continues on the loaded object
+            stored = read_other(rng, tw, pool)
+            kinds.append('readother')
+            if stored is not None:
+                last_stored = stored
+                prev_last = [0.0, 0.0, 0.0]
+                tw.on._pv_was_read = True
+            continue
         if not foreign and rng.random() < 0.012:
             stored = read_foreign(rng, tw)
             kinds.append('readforeign')
@@ -196,6 +206,38 @@ def read_foreign(rng, tw):
     with tempfile.TemporaryDirectory(prefix='pvC06f') as d:
         fn = os.path.join(d, 'f.seq')
         fs.write(fn, create_signature=False)
+        res = tw._both(lambda s: s.read(fn))
+    tw._record('read', 'load ' + sm.core_tokens(tw.on), res)
+    if res[0][0] != 'ok':
+        return None
+    return stored
+
+
+def read_other(rng, tw, pool):
+    import pypulseq as pp
+    fs = pp.Sequence(tw.on.system)
+    stored = {}
+    for k in range(rng.randint(1, 4)):
+        evs = H.gen_block(rng, pool, [0.0, 0.0, 0.0], mostly_valid=True)
+        evs = [e for e in evs if getattr(e, 'type', '') != 'rf'
+               and not (getattr(e, 'type', '') == 'grad' and (e.first != 0 or e.last != 0))] or [pool.delay()]
+        if rng.random() < 0.7:
+            evs = evs + [pool.label() for _ in range(rng.randint(1, 3))]
+            if rng.random() < 0.5:
+                evs.append(pool.trig())
+        try:
+            fs.add_block(*evs)
+        except Exception:  # noqa: BLE001
+            continue
+        stored[list(fs.block_events.keys())[-1]] = evs
+    if not stored:
+        return None
+    with tempfile.TemporaryDirectory(prefix='pvC06o') as d:
+        fn = os.path.join(d, 'o.seq')
+        try:
+            fs.write(fn, create_signature=False)
+        except AssertionError:
+            return None
         res = tw._both(lambda s: s.read(fn))
     tw._record('read', 'load ' + sm.core_tokens(tw.on), res)
     if res[0][0] != 'ok':
